@@ -74,6 +74,8 @@ pub struct Engine {
     pub native_lst_expected: BTreeMap<String, u128>,
     /// staker ledger on the native chain, normalised (see DESIGN 2.1): may go negative
     pub staker_ledger: i128,
+    /// staker / collector / channel were changed by UpdateConfig: cross-chain closure checks of C01 no longer apply
+    pub identity_changed: bool,
 }
 
 pub type BankDelta = BTreeMap<(String, String), i128>;
@@ -158,6 +160,7 @@ impl Engine {
             lst_packets: BTreeMap::new(),
             native_lst_expected: BTreeMap::new(),
             staker_ledger: 0,
+            identity_changed: false,
         };
         // instantiate must have created the denom (C19) and left the contract halted (C10)
         let created = out.effects.iter().any(|f| matches!(f, Effect::CreateDenom { subdenom, denom, canonical, .. } if subdenom == SUBDENOM && *denom == e.a.lst_denom && *canonical));
